@@ -110,3 +110,66 @@ pub fn c13_recombined_signature_opens_like_the_whole_key_signature(ct: &TimeCryp
     let whole = sk.sign(scheme, id);
     assert(s is Ok && whole is Ok && s->Ok_0 == whole->Ok_0);
 }
+
+/// xor with the same keystream is injective, byte by byte
+pub proof fn lemma_xor_cancel_at(a: Seq<u8>, b: Seq<u8>, k: Seq<u8>, i: int)
+    requires a.len() == k.len(), b.len() == k.len(), 0 <= i < k.len(), xor_seq(a, k)[i] == xor_seq(b, k)[i],
+    ensures a[i] == b[i]
+{
+    let x = a[i]; let y = b[i]; let z = k[i];
+    assert((x ^ z) == (y ^ z) ==> x == y) by(bit_vector);
+}
+
+/// the length prefix and the message are authenticated: if a ciphertext opens, then EVERY other
+/// ciphertext with the same header (U, V, scheme) and payload length that also opens under that
+/// signature agrees with it on all payload bytes covering the length prefix and the message.  Hence
+/// changing any such byte of a ciphertext that opens yields nothing (never the same nor a different
+/// message); only the padding behind them is unauthenticated.
+/// X-INJ (explicit): the check scalar H2S(alpha || SHA-256(m)) differs for different messages.
+pub fn c13_prefix_and_message_bytes_are_authenticated(c1: &TimeCryptCiphertext, c2: &TimeCryptCiphertext, sig: &Signature)
+    requires
+        sig_scheme(*sig) == c1.scheme, c1.scheme == c2.scheme, c1.u == c2.u, c1.v@ == c2.v@, c1.w@.len() == c2.w@.len(),
+        forall|a: Seq<u8>, m1: Seq<u8>, m2: Seq<u8>| #[trigger] tc_r(a, m1) == #[trigger] tc_r(a, m2) ==> m1 == m2,     // X-INJ
+{
+    let o1 = c1.decrypt(sig);
+    let o2 = c2.decrypt(sig);
+    proof {
+        broadcast use lemma_pair_sum_len1;
+        let k = gt_of(pair_sum(seq![(sig_point(*sig), c1.u)]));
+        let alpha = tc_v(k, c1.v@);
+        let p1 = tc_w(alpha, c1.w@);
+        let p2 = tc_w(alpha, c2.w@);
+        if o1.is_some_spec() && o2.is_some_spec() {
+            let m1 = o1.value()@; let m2 = o2.value()@;
+            // both check scalars give U, so they are equal; X-INJ: the messages are equal
+            let r1 = tc_r(alpha, m1); let r2 = tc_r(alpha, m2);
+            assert(pk_sub(pk_mul(pk_of(1), r1), c1.u).dl() == 0 && pk_sub(pk_mul(pk_of(1), r2), c1.u).dl() == 0);
+            lemma_mul_comm(1, r1.val()); lemma_mul_one(r1.val()); lemma_mul_comm(1, r2.val()); lemma_mul_one(r2.val());
+            lemma_sub_zero_iff(r1.val(), c1.u.dl()); lemma_sub_zero_iff(r2.val(), c1.u.dl());
+            assert(r1 == r2);
+            assert(m1 == m2);
+            // canonical prefixes of the same length: same prefix bytes, same offset
+            assert(leb_peek(p1) is Some && leb_peek(p2) is Some);
+            let k1 = leb_peek(p1)->Some_0; let k2 = leb_peek(p2)->Some_0;
+            let n = m1.len();
+            assert(leb_decode(p1) as usize == n && leb_decode(p2) as usize == n);
+            assert(p1.subrange(0, k1 as int) == leb(n as nat) && p2.subrange(0, k2 as int) == leb(n as nat));
+            assert(k1 == k2);
+            let cover = k1 + n;
+            assert forall|i: int| 0 <= i < cover implies c1.w@[i] == c2.w@[i] by {
+                if i < k1 {
+                    assert(p1[i] == p1.subrange(0, k1 as int)[i] && p2[i] == p2.subrange(0, k2 as int)[i]);
+                } else {
+                    assert(p1[i] == p1.subrange(k1 as int, cover as int)[i - k1] && p2[i] == p2.subrange(k2 as int, cover as int)[i - k2]);
+                }
+                lemma_xor_cancel_at(c1.w@, c2.w@, shake128(alpha, c1.w@.len()), i);
+            }
+        }
+    }
+    assert(o1.is_some_spec() && o2.is_some_spec() ==> {
+        let k = gt_of(pair_sum(seq![(sig_point(*sig), c1.u)]));
+        let p1 = tc_w(tc_v(k, c1.v@), c1.w@);
+        let cover = leb_peek(p1)->Some_0 + o1.value()@.len();
+        forall|i: int| 0 <= i < cover ==> c1.w@[i] == c2.w@[i]
+    });
+}
